@@ -134,3 +134,20 @@ def check(ctx):
         ctx.check(q.endswith(allowed_suffix), "T4-txes", node, "%s of .txes in %s" % (kind, q.split(":")[1]),
                   "the transmit queue is mutated outside tx()/serviceTxes")
     ctx.floor("T4-txes:writers", k, 8)
+    wire_log_writes(ctx)
+
+
+def wire_log_writes(ctx):
+    """WireLog.writeTx/writeRx put the chunk they were handed into the log as it is: header line, the bytes, one newline"""
+    ctx.rule("T9-wirelog", "WireLog.writeTx/writeRx: write(header); write(data) - the parameter itself; write(b'\\n')")
+    W = ctx.cls("aio.wiring", "WireLog")
+    for mn, log in (("writeTx", "self.txLog"), ("writeRx", "self.rxLog")):
+        f = W.own_method(mn)
+        V = FuncView(ctx, f)
+        ws = [(n, c) for n, c in V.attr_calls(("write",)) if src(V.sym(c.func.value, n)) == log]
+        args = [src(V.sym(c.args[0], n)) if c.args else "?" for n, c in ws]
+        ok = len(ws) == 3 and args[1] == "data" and args[2] in ("b'\\n'",) and args[0].startswith("ns2b(") and \
+            all(V.dominated([ws[i + 1][0]], [ws[i][0]]) for i in range(2))
+        ctx.check(ok, "T9-wirelog", f, "WireLog.%s writes the header, then `data` unchanged, then a newline (%s)" % (mn, args),
+                  "the wire log is the record of exactly the bytes the socket accepted or delivered: a stripped, decoded or "
+                  "re-encoded copy drops or changes bytes (e.g. the CRLF that ends an HTTP head)")
